@@ -5,7 +5,7 @@ From V.c01 Require Import C01Codec C01Model.
 From V.c02 Require Import C02Proofs C02Witness.
 
 (* per leaf kind (all 14 value shapes at once): the bytes the encoder writes are Size() many, under the guard
-   on versions / counts for which the separately written Size() and EncodeSW agree *)
+   leaf_size_guard (4-character names / handler type, counts below 2^32; no version is excluded any more) *)
 Theorem C02_leaf : forall l b, raw_leaf l (dflt_rsv l) = Ok b -> leaf_size_guard l = true -> lenN b = size_leaf l.
 Proof. exact leaf_size. Qed.
 Print Assumptions C02_leaf.
@@ -40,20 +40,28 @@ Print Assumptions C02_encode_ok.
 (* the encoders are functions of the tree: encoding twice gives identical bytes (the model has no state;
    the Go side of this claim -- Size() mutating LargeSize, Info -- is checked by the harness histories) *)
 
-(* --- the guards are needed: Size() over-estimates silently --- *)
-Theorem C02_tfdt_refuted : exists t enc, encode_w t = Ok enc /\ encode_sw t = Ok enc /\ lenN enc < size_box t.
-Proof. exact tfdt_v2_refuted. Qed.
-Print Assumptions C02_tfdt_refuted.
+(* --- witnesses of the repaired Size() defects (tfdt 4*Version, sidx 8*Version, unknown box with a large-size
+   header): refuted on the pinned tree, theorems of the repaired one --- *)
+Theorem C02_tfdt_v2_fixed : exists enc, encode_w t_tfdt_v2 = Ok enc /\ encode_sw t_tfdt_v2 = Ok enc /\
+  lenN enc = size_box t_tfdt_v2 /\ hdr_size_field enc = lenN enc.
+Proof. exact tfdt_v2_fixed. Qed.
+Print Assumptions C02_tfdt_v2_fixed.
 
-Theorem C02_sidx_refuted : exists t enc, encode_w t = Ok enc /\ lenN enc < size_box t.
-Proof. exact sidx_v2_refuted. Qed.
-Print Assumptions C02_sidx_refuted.
+Theorem C02_sidx_v2_fixed : exists enc, encode_w t_sidx_v2 = Ok enc /\ lenN enc = size_box t_sidx_v2 /\
+  hdr_size_field enc = lenN enc.
+Proof. exact sidx_v2_fixed. Qed.
+Print Assumptions C02_sidx_v2_fixed.
 
-(* an unknown box decoded from a large-size header keeps the 16-byte-header size *)
-Theorem C02_unknown_large_refuted : exists bs t enc,
-  decode bs = Ok (t, []) /\ encode_w t = Ok enc /\ lenN enc < size_box t /\ hdr_size_field enc <> lenN enc.
-Proof. exact unknown_large_refuted. Qed.
-Print Assumptions C02_unknown_large_refuted.
+Theorem C02_unknown_large_fixed : exists t,
+  decode w_unknown_large = Ok (t, []) /\ encode_w t = Ok w_unknown_large /\ lenN w_unknown_large = size_box t /\
+  hdr_size_field w_unknown_large = size_box t.
+Proof. exact unknown_large_fixed. Qed.
+Print Assumptions C02_unknown_large_fixed.
+
+(* the remaining guard is needed: hdlr.Size() assumes a 4-character HandlerType *)
+Theorem C02_hdlr_refuted : exists enc, encode_w t_hdlr_bad = Ok enc /\ lenN enc < size_box t_hdlr_bad.
+Proof. exact hdlr_refuted. Qed.
+Print Assumptions C02_hdlr_refuted.
 
 Example C02_ex_moof : size_ok ex_tree = true /\ exists enc, raw_box false ex_tree = Ok enc /\ lenN enc = 120.
 Proof. exact ex_tree_ok. Qed.
